@@ -82,7 +82,7 @@ theorem C06_vecdeque_end_to_end (c : Ctx) (rec : Rec) (sv : Val) (id : Nat) (tps
     (hlen : assumeScalarNumber sv "len" = some (n : Int)) (hn : (n : Int) ≤ LEN_GUARD)
     (hel : c.size inner = some el) (hel0 : 0 < el)
     (hcap : extractCapacity c.ver sv = some cap) (hcg : CapWithinGuard cap) (hc0 : 0 < cap) (hnc : n ≤ cap)
-    (hhead : assumeScalarNumber sv "head" = some (head : Int))
+    (hhead : assumeScalarNumber sv "head" = some (head : Int)) (hh64 : head < 2 ^ 64)
     (hp : assumePointer sv "pointer" = some p)
     (hrd : c.rd p (cap * el) = some buf) (hbuf : buf.length = cap * el)
     (hil : items.length = n)
@@ -90,7 +90,7 @@ theorem C06_vecdeque_end_to_end (c : Ctx) (rec : Rec) (sv : Val) (id : Nat) (tps
       rec (some ⟨(buf.drop (((head + i) % cap) * el)).take el, some (p + ((head + i) % cap) * el)⟩) inner = some items[i]) :
     specialize c rec .vecdeque sv id tps =
       some (.specVec true sv (vecStructure c sv.tyName inner items cap tps)) :=
-  deque_end_to_end c rec sv id tps inner el n cap head p buf items hT hlen hn hel hel0 hcap hcg hc0 hnc hhead hp hrd hbuf hil hitems
+  deque_end_to_end c rec sv id tps inner el n cap head p buf items hT hlen hn hel hel0 hcap hcg hc0 hnc hhead hh64 hp hrd hbuf hil hitems
 
 /-- **C06_hashmap_end_to_end**: header fields found; the loaded 16-byte groups are the table's control bytes (with the
     tail invariant); the element decoder shows the pair `(k j, v j)` on the image of bucket `j`, located `(j + 1) * size`
